@@ -315,13 +315,42 @@ def flush_stats(chk, rule, stats):
 _JOB_UNIT = None
 
 
+def scalar_of(unit):
+    return "vt::Arch" if unit.name.startswith("arch_") else "double"
+BIGCONV_CLAUSE = "integers enter the scalar type through static_cast of a value that fits an int"
+RAWCMP_CLAUSE = "scalar values are compared with the scalar type's own operators, never byte-wise"
+
+
 def _job(args):
     modname, fname, kwargs = args
     import importlib
     mod = importlib.import_module(modname)
-    w = World(_JOB_UNIT)
+    w = World(_JOB_UNIT, scalar_of(_JOB_UNIT))
     try:
         stats = getattr(mod, fname)(None, w, None, **kwargs)
+        for ev in w.I.rawcmp:
+            if ev is None:
+                continue
+            key = (ev[0], ev[1], RAWCMP_CLAUSE)
+            st = stats.get(key)
+            if st is None:
+                st = stats[key] = dict(n=0, bad=0, qn=ev[2], ub=0, ubfirst=None, first=dict(
+                    case=dict(line=ev[3]), got="memcmp over the storage of scalars decides the result",
+                    want="T's operator== (bit patterns of equal values differ: -0.0 / +0.0; NaN)"))
+            st["n"] += 1
+            st["bad"] += 1
+        for ev in w.I.bigconv:
+            if ev is None:
+                continue
+            key = (ev[0], ev[1], BIGCONV_CLAUSE)
+            st = stats.get(key)
+            if st is None:
+                st = stats[key] = dict(n=0, bad=0, qn=ev[2], ub=0, ubfirst=None, first=dict(
+                    case=dict(line=ev[3], integer=ev[4]), got="converts the integer %d to the scalar type" % ev[4],
+                    want="only integers that fit an int are converted (the documented route is construction from "
+                         "an int: a type offering just that narrows larger values silently)"))
+            st["n"] += 1
+            st["bad"] += 1
         return ("ok", stats, w.evals, w.I.executed, w.I.scaled)
     except SetupRefused as e:
         f = e.f
@@ -360,6 +389,10 @@ RULE_TEXT = {
                  "by an evaluated operation (failing ones included) satisfies the class invariant afterwards",
     "R-REG.unchanged": "R-REG (C14 view): the state of every operand is identical before and after each evaluated "
                        "operation; refused in-place operations leave the target unchanged",
+    "R-REG.arch": "R-REG on the instantiation with the scalar archetype vt::Arch: grids, supports, evaluation, validity, "
+                  "arithmetic, scalar forms, linearCombination, predicates, generator and interpolation argument checks "
+                  "meet the same specifications as the instantiation with double (archetype operators act on the "
+                  "abstract scalar domain)",
     "R-REG.divzero": "R-REG (C19 view): generating B-splines from every knot sequence (all multiplicity patterns up to the "
                      "length bound, orders 0..3) never divides by a value that is exactly zero - an exact field type has "
                      "no infinity, so the zero-width guards must precede the division",
